@@ -272,6 +272,24 @@ theorem shrink_contract_checked {cap : List Nat} {before after : List Perm} (h :
     ∀ q, Grp.Gen cap after q ↔ Grp.Gen cap ((before.filter (Grp.preservesCap cap)).map (Grp.restrict cap)) q :=
   Grpw.shrinkOK_spec h
 
+/-- **end to end for a merge whose log entry was accepted**: the group hypotheses of `equalities_survive_merge` are discharged by the
+accepted `grpw` entry (`Grpw.mergeOK` evaluated on the logged generators), so for such a merge two invocations of the absorbed class that
+compared equal before compare equal afterwards — what remains assumed is the union-find half, which `Snap.validWrite` checks on the same run
+(`IsBij`, the written entry) -/
+theorem equalities_survive_checked_merge {s s' : Snap} {cf ct ct' : SClass} {N : SlotMap} {tb : List Perm} (hok : Snap.ufOK s = true)
+    (hclsf : Snap.cls s cf.id = some cf) (hvf : Grp.Valid cf.slots cf.gens)
+    (holdf : s.uf[cf.id]? = some ⟨cf.id, SlotMap.identity cf.slots⟩)
+    (holdt : s.uf[ct.id]? = some ⟨ct.id, SlotMap.identity ct.slots⟩) (hne : ct.id ≠ cf.id)
+    (hN : Snap.IsBij ct.slots cf.slots N)
+    (huf : s'.uf = s.uf.set cf.id ⟨ct.id, N⟩)
+    (hcls' : Snap.cls s' ct.id = some ct') (hid : ct'.id = ct.id) (hslots : ct'.slots = ct.slots)
+    (hchk : Grpw.mergeOK ct'.slots N cf.gens tb ct'.gens = true)
+    {a b : AppId} {A B : SlotMap} (ha : Snap.find s a = some ⟨cf.id, A⟩) (hb : Snap.find s b = some ⟨cf.id, B⟩)
+    (hA : Snap.IsEmb cf.slots A) (hB : Snap.IsEmb cf.slots B) (h : Snap.eq s a b = some true) :
+    Snap.eq s' a b = some true := by
+  obtain ⟨hv, hg, _, _⟩ := merge_contract_checked hchk
+  exact equalities_survive_merge hok hclsf hvf holdf holdt hne hN huf hcls' hid hslots hv hg ha hb hA hB h
+
 /-- a `Group::add` entry accepted by `Grpw.addOK` (self-unions in `union_leaders`, `determine_self_symmetries`): the class keeps every
 symmetry it had, gains the asserted one, and gains nothing that those do not generate -/
 theorem add_contract_checked {Ω : List Nat} {before after : List Perm} {p : Perm} (h : Grpw.addOK Ω before p after = true) :
